@@ -14,6 +14,27 @@ TAGS = {'en-us': 'en', 'es-es': 'es', 'es-mx': 'esmx', 'fr-fr': 'fr', 'pt-br': '
         'nl-nl': 'nl', 'zh-cn': 'zh'}
 
 
+TIME_SPEC = {
+    'en-us': {'tag': 'en', 'style': 'en', 'suffix': ('time_suffix_full', 'search'), 'oclock': 'oclock', 'lunch': 'lunch_regex',
+              'night': 'night_regex', 'flags': [], 'plain_pm': ['in the afternoon', 'in the evening', 'afternoon']},
+    'es-es': {'tag': 'es', 'style': 'simple', 'suffix': ('time_suffix', 'match'), 'oclock': 'oclock', 'flags': []},
+    'es-mx': {'tag': 'esmx', 'style': 'simple', 'suffix': ('time_suffix', 'match'), 'oclock': 'oclock', 'flags': []},
+    'fr-fr': {'tag': 'fr', 'style': 'simple', 'suffix': ('time_suffix', 'match'), 'oclock': 'heures', 'flags': []},
+    'pt-br': {'tag': 'pt', 'style': 'night', 'suffix': ('time_suffix_full', 'search'), 'oclock': 'oclock', 'night': 'night_regex',
+              'flags': [], 'plain_pm': ['da tarde', 'de tarde', 'a tarde', 'à tarde']},
+    'it-it': {'tag': 'it', 'style': 'night', 'suffix': ('time_suffix', 'search'), 'oclock': 'oclock', 'night': 'night_regex',
+              'flags': [], 'plain_pm': ['del pomeriggio', 'di pomeriggio', 'pomeriggio', 'di sera']},
+    'de-de': {'tag': 'de', 'style': 'night', 'suffix': ('time_suffix', 'search'), 'oclock': 'oclock', 'night': 'night_regex',
+              'flags': ['_half_token_regex', '_quarter_to_token_regex', '_quarter_past_token_regex',
+                        '_three_quarter_to_token_regex', '_three_quarter_past_token_regex'],
+              'plain_pm': ['nachmittags', 'am nachmittag', 'abends', 'am abend']},
+    'nl-nl': {'tag': 'nl', 'style': 'nl', 'suffix': ('time_suffix_full_regex', 'search'), 'oclock': 'oclock', 'lunch': 'lunch_regex',
+              'night': 'night_regex',
+              'flags': ['_half_token_regex', '_quarter_token_regex', '_three_quarter_token_regex', 'to_half_token_regex_regex',
+                        'for_half_token_regex_regex', 'to_token_regex_regex']},
+}
+
+
 def dt_field(d):
     return '%d,%d,%d,%d,%d,%d' % (d.year, d.month, d.day, d.hour, d.minute, d.second)
 
@@ -107,12 +128,49 @@ class Tree:
     def datetime_parser(self, culture='en-us'):
         return self.merged(culture).config.date_time_parser
 
-    # -------- model inputs of an English match_to_time call, derived from the real match object
-    def time_call_fields(self, match):
+    # -------- model inputs of a match_to_time call, derived from the real match object
+    def suffix_else_variant(self, culture):
+        """'1' when the culture's adjust_by_suffix sets has_pm for a plain pm suffix (closing `else`, finding
+        afternoon-12 repaired / never present), '0' otherwise; probed on the real method."""
+        spec = TIME_SPEC[culture]
+        if spec['style'] in ('simple', 'nl'):
+            return '1'
+        cfg = self.time_parser(culture).config
+        for cand in spec['plain_pm']:
+            si = self.suffix_info(culture, cand)
+            if si['full'] and si['pm'] and not si['oclock'] and not si['lunch'] and not si['night']:
+                adj = self.base_time.AdjustParams(12, 0, False, False, False)
+                cfg.adjust_by_suffix(cand, adj)
+                return '1' if adj.has_pm else '0'
+        raise common.InfraError('no plain pm suffix found for %s' % culture)
+
+    def suffix_info(self, culture, sfx):
         g = self.RegExpUtility.get_group
-        tp = self.time_parser()
+        rx = self.regex
+        spec = TIME_SPEC[culture]
+        cfg = self.time_parser(culture).config
+        s = sfx.strip().lower()
+        attr, mode = spec['suffix']
+        pat = getattr(cfg, attr)
+        if mode == 'match':
+            m2 = rx.match(pat, s)
+            full = bool(m2) and m2.group() == s
+        else:
+            m2 = rx.search(pat, s)
+            full = m2 is not None and m2.start() == 0 and m2.group() == s
+        oclock = g(m2, spec['oclock']) if full else ''
+        am_s = g(m2, 'am') if full else ''
+        pm_s = g(m2, 'pm') if full else ''
+        lunch = bool(pm_s) and spec.get('lunch') is not None and rx.search(getattr(cfg, spec['lunch']), pm_s) is not None
+        night = bool(pm_s) and spec.get('night') is not None and rx.search(getattr(cfg, spec['night']), pm_s) is not None
+        return {'full': full, 'oclock': oclock, 'am': am_s, 'pm': pm_s, 'lunch': lunch, 'night': night}
+
+    def time_call_fields(self, match, culture='en-us'):
+        g = self.RegExpUtility.get_group
+        tp = self.time_parser(culture)
         cfg = tp.config
         rx = self.regex
+        spec = TIME_SPEC[culture]
         vals = [g(match, n) for n in TIME_GROUPS]
         desc = g(match, self.Constants.DESC_GROUP_NAME).lower()
         uc = cfg.utility_configuration
@@ -123,24 +181,17 @@ class Tree:
         ipm = g(match, self.Constants.IMPLICIT_PM_GROUP_NAME)
         pfx = g(match, self.Constants.PREFIX_GROUP_NAME).lower()
         sfx = g(match, self.Constants.SUFFIX_GROUP_NAME).lower()
-        # what adjust_by_prefix reads from its regex
+        # what adjust_by_prefix reads from its regexes
         p = pfx.strip().lower()
         m1 = rx.search(cfg.less_than_one_hour, p)
         ltoh = m1 is not None
         dm = (g(m1, 'deltamin') or '') if ltoh else ''
         dmn = (g(m1, 'deltaminnum') or '').lower() if ltoh else ''
-        # what adjust_by_suffix reads from its regexes
-        s = sfx.strip().lower()
-        m2 = rx.search(cfg.time_suffix_full, s)
-        full = m2 is not None and m2.start() == 0 and m2.group() == s
-        oclock = g(m2, 'oclock') if full else ''
-        am_s = g(m2, 'am') if full else ''
-        pm_s = g(m2, 'pm') if full else ''
-        lunch = bool(pm_s) and rx.search(cfg.lunch_regex, pm_s) is not None
-        night = bool(pm_s) and rx.search(cfg.night_regex, pm_s) is not None
+        flags = ''.join(b(rx.search(getattr(cfg, a), pfx) is not None) for a in spec['flags']) or '-'
+        si = self.suffix_info(culture, sfx)
         fields = [cps(v) for v in vals] + [b(am_d), b(ampm_d), b(pm_d), cps(iam), cps(ipm), cps(pfx), cps(sfx),
-                                           b(ltoh), cps(dm), cps(dmn), b(full), cps(oclock), cps(am_s), cps(pm_s),
-                                           b(lunch), b(night)]
+                                           b(ltoh), cps(dm), cps(dmn), flags, b(si['full']), cps(si['oclock']),
+                                           cps(si['am']), cps(si['pm']), b(si['lunch']), b(si['night'])]
         groups = {n: v for n, v in zip(TIME_GROUPS, vals) if v}
         for k, v in (('desc', desc), ('iam', iam), ('ipm', ipm), ('prefix', pfx), ('suffix', sfx)):
             if v:
@@ -207,7 +258,7 @@ def plain_time_fields(hour='', minute='', sec='', desc=None, pfx='', sfx=''):
     outcome: used for model predictions at pipeline level."""
     vals = {'hour': hour, 'min': minute, 'sec': sec}
     fields = [cps(vals.get(n, '')) for n in TIME_GROUPS]
-    fields += [b(desc == 'am'), '0', b(desc == 'pm'), '-', '-', cps(pfx), cps(sfx), '0', '-', '-', '0', '-', '-', '-', '0', '0']
+    fields += [b(desc == 'am'), '0', b(desc == 'pm'), '-', '-', cps(pfx), cps(sfx), '0', '-', '-', '-', '0', '-', '-', '-', '0', '0']
     return fields
 
 
@@ -235,17 +286,26 @@ def _worker_run(chunk):
     return out
 
 
-def run_queries(cases, nproc=None, chunk=40):
+def run_queries(cases, nproc=None, chunk=120):
     """cases: [(culture, query, (y,m,d,h,mi,s))] -> per case a list of (start, end, text, type, values_str, resolution)
-    or a string 'raised …'. Cases are grouped by culture so that a worker builds few models."""
+    or a string 'raised …'. A culture's cases are cut into few, even chunks (about `chunk` queries each, at most one
+    per process) so that a process builds few models (building one costs 1-5 s)."""
     nproc = nproc or min(16, os.cpu_count() or 4)
-    order = sorted(range(len(cases)), key=lambda i: cases[i][0])
-    chunks = [[cases[i] for i in order[k:k + chunk]] for k in range(0, len(order), chunk)]
+    by = {}
+    for i, c in enumerate(cases):
+        by.setdefault(c[0], []).append(i)
+    chunks = []
+    for culture in sorted(by, key=lambda c: -len(by[c])):
+        idx = by[culture]
+        n = min(nproc, max(1, len(idx) // chunk))
+        size = -(-len(idx) // n)
+        for k in range(0, len(idx), size):
+            chunks.append(idx[k:k + size])
     ctx = multiprocessing.get_context('fork')
     with ctx.Pool(nproc, initializer=_worker_init) as pool:
-        res = pool.map(_worker_run, chunks, chunksize=1)
-    flat = [r for c in res for r in c]
+        res = pool.map(_worker_run, [[cases[i] for i in ch] for ch in chunks], chunksize=1)
     out = [None] * len(cases)
-    for i, r in zip(order, flat):
-        out[i] = r
+    for ch, rr in zip(chunks, res):
+        for i, r in zip(ch, rr):
+            out[i] = r
     return out
